@@ -14,11 +14,13 @@ def run(rep):
                 'Non-trivial = record with at least one jump row.')
     rep.assumptions = ['ValueError("No jumps found") is the API contract for an empty jump table and is mapped to the empty table',
                        'jump rows compared as sets plus row count (row order is not part of the property)']
-    sc.leg_m(rep, 'C04', [(5, 2, 1, 3)] if quick else [(7, 2, 1, 3), (5, 3, 1, 3), (4, 2, 2, 2)])
+    sc.leg_m(rep, 'C04', [(5, 2, 1, 3), (5, 2, 1, 3, 'mixed')] if quick else [(7, 2, 1, 3), (5, 3, 1, 3), (4, 2, 2, 2), (6, 2, 1, 3, 'mixed'), (4, 3, 1, 2, 'mixed')])
     sc.leg_a(rep, 'C04', 5 if quick else 7, 2, 3)
     if not quick:
         sc.leg_a(rep, 'C04', 5, 3, 3)
     sc.leg_b(rep, 'C04', 30 if quick else 400, 40 if quick else 60, 3 if quick else 4, 4 if quick else 5,
              list(gen.FAMILIES), ms=(0, 1, 2, 5, 20), ks=())
+    sc.overlap_cases(rep, 'C04', 12 if quick else 150, ms=(0, 1, 3))
     sc.scale_by_tiling(rep, 33200 if quick else 70000, ms=(0, 4))
+    sc.many_sites(rep, 11 if quick else 13, ms=(0, 3), want=('Hist', 'Events', 'Jumps'))
     rep.exhaustive = True
